@@ -5,6 +5,7 @@
   getters of `src/attack_tables.rs`. Specification: coordinate walks / coordinate patterns of `Spec.Rules`.
 -/
 import Jence.Lemmas.Attack
+import Jence.Lemmas.TableLift
 namespace Jence.Props.C15
 open Jence
 
@@ -32,7 +33,6 @@ set_option maxRecDepth 100000 in
 theorem leapers_pawn : ∀ sq, sq < 64 → (getPawnAttacks sq true = Spec.pawnPattern true sq ∧ getPawnAttacks sq false = Spec.pawnPattern false sq) := by
   decide +kernel
 
-set_option maxRecDepth 100000 in
 /-- **T15.4** table layout: the rook blocks start at the prefix sums of `2^popcount(mask)`, the bishop blocks follow, and
     the total is the size of the table (107 648 for the masks in the source) -/
 theorem table_layout :
@@ -40,7 +40,30 @@ theorem table_layout :
     (∀ sq, sq < 63 → ROOK_OFFSETS.getD (sq + 1) 0 = ROOK_OFFSETS.getD sq 0 + 2 ^ popCount (ROOK_MASK.getD sq 0)) ∧
     BISHOP_OFFSETS.getD 0 0 = ROOK_OFFSETS.getD 63 0 + 2 ^ popCount (ROOK_MASK.getD 63 0) ∧
     (∀ sq, sq < 63 → BISHOP_OFFSETS.getD (sq + 1) 0 = BISHOP_OFFSETS.getD sq 0 + 2 ^ popCount (BISHOP_MASK.getD sq 0)) ∧
-    BISHOP_OFFSETS.getD 63 0 + 2 ^ popCount (BISHOP_MASK.getD 63 0) = 107648 := by decide +kernel
+    BISHOP_OFFSETS.getD 63 0 + 2 ^ popCount (BISHOP_MASK.getD 63 0) = 107648 := table_layout_fact
+
+/-- **T15.1** The PEXT-indexed lookup `SLIDING_ATTACKS[ROOK_OFFSETS[sq] + pext(occ, ROOK_MASK[sq])]` returns, for every
+    square and **every** 64-bit occupancy (relevant bits or not), exactly the squares a rook reaches by sliding up to and
+    including the first occupied square. Proof: the block of `sq` starts at the prefix sum of the earlier block sizes
+    (`table_layout`), entry `i` of it is the ray loop on `pdep i mask`, `pdep (pext occ mask) mask = occ &&& mask`
+    (`pdep_pext`), and the ray loop does not look at the last square of a ray (`rook_mask_irrelevant`). -/
+theorem lookup_rook (sq : Nat) (hsq : sq < 64) (occ : UInt64) : getRookAttacks sq occ = Spec.slideRook sq occ := by
+  rw [getRookAttacks_eq sq hsq occ]; exact rookOnTheFly_eq_slide sq hsq occ
+
+/-- **T15.2** the same for bishops -/
+theorem lookup_bishop (sq : Nat) (hsq : sq < 64) (occ : UInt64) : getBishopAttacks sq occ = Spec.slideBishop sq occ := by
+  rw [getBishopAttacks_eq sq hsq occ]; exact bishopOnTheFly_eq_slide sq hsq occ
+
+/-- ... and queens -/
+theorem lookup_queen (sq : Nat) (hsq : sq < 64) (occ : UInt64) :
+    getQueenAttacks sq occ = Spec.slideRook sq occ ||| Spec.slideBishop sq occ := by
+  unfold getQueenAttacks; rw [lookup_rook sq hsq, lookup_bishop sq hsq]
+
+/-- **T15.5** PDEP after PEXT with the same mask keeps exactly the masked bits (the index round trip of the table) -/
+theorem pdep_after_pext (x m : UInt64) : pdep (pext x m) m = x &&& m := pdep_pext x m
+
+/-- the index stays inside the block -/
+theorem pext_in_block (x m : UInt64) : (pext x m).toNat < 2 ^ popCount m := pext_lt x m
 
 /-- the queen getter is the union of the rook and bishop getters -/
 theorem queen_is_union (sq : Nat) (occ : UInt64) : getQueenAttacks sq occ = getRookAttacks sq occ ||| getBishopAttacks sq occ := rfl
